@@ -125,64 +125,27 @@ def rule_a(ctx):
     missing = [n for n in disc.values() if n not in used and n != "Unknown"]
     ctx.check(not missing, rid, "all-variants-produced", "every non-Unknown variant has a C row", None, missing)
 
-    def canon(op, a, b):
-        a, b = sorted([a, b])
-        return "(%s %s %s)" % (a, op, b)
+    # path conditions of every value the classifier can return (engine.cpaths: helpers opened up, &&/||/! decomposed, rows canonicalised)
+    from .. import cpaths
+    res = cpaths.outcomes(F.c_ast, "sighook_signal_cause")
+    if not res:
+        raise AnchorLost("C classifier sighook_signal_cause: no return paths found")
+    A_CODE = "(ROW.native == info.si_code)"
+    A_ANY = "(-1 == ROW.signal)"
+    A_SIG = "(ROW.signal == info.si_signo)"
+    rowres = [r for r in res if r[1] == "ROW.translated"]
 
-    def strip_c(n):
-        while n["kind"] in ("ImplicitCastExpr", "ParenExpr", "CStyleCastExpr", "ConstantExpr"):
-            n = n["inner"][0]
-        return n
-
-    def conjuncts(n):
-        n = strip_c(n)
-        if n["kind"] == "BinaryOperator" and n.get("opcode") == "&&":
-            return conjuncts(n["inner"][0]) + conjuncts(n["inner"][1])
-        return [cexpr(n)]
-    # "results" of the classifier: every `return e;` and, when e is a local variable, every value that variable is given
-    # (its initialiser and its assignments), each with the conjuncts of the enclosing if-conditions
-    results = []        # (expr string, int value or None, guard conjuncts, line)
-    rets = find(f, "ReturnStmt")
-    ret_vars = set()
-    for r in rets:
-        if r.get("inner"):
-            e = strip_c(r["inner"][0])
-            if e["kind"] == "DeclRefExpr" and e["ref"]["kind"] == "VarDecl":
-                ret_vars.add(e["ref"]["name"])
-
-    def walk(n, acc):
-        k = n.get("kind")
-        if k == "ReturnStmt" and n.get("inner"):
-            e = strip_c(n["inner"][0])
-            if not (e["kind"] == "DeclRefExpr" and e["ref"]["name"] in ret_vars):
-                results.append((cexpr(e), int_of(e), list(acc), n.get("line")))
-        if k == "VarDecl" and n.get("name") in ret_vars and n.get("inner"):
-            e = strip_c(n["inner"][-1])
-            results.append((cexpr(e), int_of(e), list(acc), n.get("line")))
-        if k == "BinaryOperator" and n.get("opcode") == "=" and n.get("inner"):
-            l = strip_c(n["inner"][0])
-            if l["kind"] == "DeclRefExpr" and l["ref"]["name"] in ret_vars:
-                e = strip_c(n["inner"][1])
-                results.append((cexpr(e), int_of(e), list(acc), n.get("line")))
-        if k == "IfStmt" and n.get("inner"):
-            c = conjuncts(n["inner"][0])
-            for x in n["inner"][1:2]:
-                walk(x, acc + c)
-            for x in n["inner"][2:]:
-                walk(x, acc)
-            return
-        for x in n.get("inner", []):
-            walk(x, acc)
-    walk(f, [])
-    need1 = canon("==", "consts[i].native", "info.si_code")
-    need2 = canon("||", canon("==", "consts[i].signal", "-1"), canon("==", "consts[i].signal", "info.si_signo"))
-    rowres = [r for r in results if r[0] == "consts[i].translated"]
-    okc = bool(rowres) and all(need1 in r[2] and need2 in r[2] for r in rowres)
-    ctx.check(okc, rid, "c-match-condition", "a row's code is produced only under native == si_code and (signal == -1 or signal == si_signo)", None, [r[2] for r in rowres])
-    ctx.check(bool(rowres), rid, "c-returns-translated", "the matched row's translated code is returned", None, [r[0] for r in results])
-    unk = [r for r in results if r[1] is not None and unknown and r[1] == unknown[0] and not r[2]]
-    ctx.check(len(unknown) == 1 and bool(unk), rid, "fallthrough-unknown", "when no row matches the result is the Unknown discriminant (%s)" % unknown, None, [(r[0], r[2]) for r in results])
-    extra = [{"value": r[0], "line": r[3]} for r in results if not (r[0] == "consts[i].translated" or (r[1] is not None and unknown and r[1] == unknown[0]))]
+    def matched(conds):
+        pos = {a for a, p in conds if p}
+        return A_CODE in pos and (A_ANY in pos or A_SIG in pos)
+    okc = bool(rowres) and all(matched(r[0]) for r in rowres)
+    ctx.check(okc, rid, "c-match-condition", "a row's code is produced only under native == si_code and (signal == -1 or signal == si_signo)", None,
+              [{"line": r[3], "conditions": ["%s%s" % ("" if p else "!", a) for a, p in r[0]]} for r in rowres])
+    ctx.check(bool(rowres), rid, "c-returns-translated", "the matched row's translated code is returned", None, [r[1] for r in res])
+    unk = [r for r in res if r[2] is not None and unknown and r[2] == unknown[0] and not [a for a, p in r[0] if p]]
+    ctx.check(len(unknown) == 1 and bool(unk), rid, "fallthrough-unknown", "when no row matches the result is the Unknown discriminant (%s)" % unknown, None,
+              [(r[1], r[0]) for r in res])
+    extra = [{"value": r[1], "line": r[3]} for r in res if not (r[1] == "ROW.translated" or (r[2] is not None and unknown and r[2] == unknown[0]))]
     ctx.check(not extra, rid, "c-returns-only-table-or-unknown", "the C classifier returns nothing but a matched row's code or the Unknown code (no catch-all class "
               "for unlisted si_code values)", None, {"other_results": extra, "why": "e.g. treating every negative si_code as 'queued' makes SI_TIMER/SI_ASYNCIO records "
                                                      "report a timer id as a process id"})
@@ -257,44 +220,92 @@ def rule_d(ctx):
     rid = "C17.d"
     ctx.rule(rid, "pid/uid readers run only under has_process(cause of the same record); `signal` is si_signo of the argument; the Rust extern "
                   "declarations and the C definitions agree in name, arity and return width; the C readers return si_pid / si_uid", floor=8)
-    ex = F.one("signal_hook::low_level::siginfo::Origin::extract")
-    ctx.fn(ex)
+    ex0 = F.one("signal_hook::low_level::siginfo::Origin::extract")
+    ctx.fn(ex0)
+    from .nf import NF
+    from .. import inline
+    HP = r"^signal_hook::low_level::siginfo::ICause::has_process$"
+    ex = NF(F, ex0, vocab=[HP])
     fl = flow(ex)
     cause_calls = [(bb, t) for bb, t in ex.calls() if t.get("f") is not None and F.inst[t["f"]].symbol == "sighook_signal_cause"]
     hp_calls = [(bb, t) for bb, t in ex.calls() if (t.get("def") or "").endswith("ICause::has_process")]
-    proc_calls = [(bb, t) for bb, t in ex.calls() if (t.get("def") or "").endswith("Process::extract")]
-    if len(cause_calls) != 1 or len(hp_calls) != 1 or len(proc_calls) != 1:
-        raise AnchorLost("Origin::extract shape (cause / has_process / Process::extract)")
-    cb, hb, pb = cause_calls[0][0], hp_calls[0][0], proc_calls[0][0]
+    rd_calls = [(bb, t) for bb, t in ex.calls() if t.get("f") is not None and F.inst[t["f"]].symbol in ("sighook_signal_pid", "sighook_signal_uid")]
+    if len(cause_calls) != 1 or len(hp_calls) != 1 or len(rd_calls) != 2:
+        raise AnchorLost("Origin::extract shape (cause %d / has_process %d / pid+uid readers %d)" % (len(cause_calls), len(hp_calls), len(rd_calls)))
+    cb, hb = cause_calls[0][0], hp_calls[0][0]
     a = [deep_strip(e) for e in fl.term_arg(cb, 0)]
     ctx.check(all(strip(e[1] if e[0] == "ref" else e) in (("param", 1), ("deref", ("param", 1))) or deps(ex, [e]) == {("param", 1)} for e in a), rid, "cause-of-argument",
               "the cause is computed from the function's own siginfo argument", cause_calls[0][1]["sp"], [show(e) for e in a])
     hd = deps(ex, fl.term_arg(hb, 0))
     ctx.check(("call", cb) in hd, rid, "has_process-of-that-cause", "has_process is asked about that very cause", hp_calls[0][1]["sp"], sorted(map(str, hd)))
-    guarded = any(ce[0] == "call" and ce[1] == hb and truth(inf) is True for (ce, inf, sb) in facts_at(ex, pb))
-    ctx.check(guarded, rid, "pid-uid-guarded", "si_pid/si_uid are read only on the true branch of has_process()", proc_calls[0][1]["sp"], [(show(c), i) for c, i, _ in facts_at(ex, pb)])
-    pa = deps(ex, fl.term_arg(pb, 0))
-    ctx.check(pa == {("param", 1)}, rid, "pid-uid-of-argument", "the process is extracted from the same siginfo", proc_calls[0][1]["sp"], sorted(map(str, pa)))
-    # readers nowhere else
+    for pb, pt in rd_calls:
+        sym = F.inst[pt["f"]].symbol
+        guarded = any(ce[0] == "call" and ce[1] == hb and truth(inf) is True for (ce, inf, sb) in facts_at(ex, pb))
+        ctx.check(guarded, rid, "pid-uid-guarded:%s" % sym, "si_pid/si_uid are read only on the true branch of has_process()", pt["sp"], [(show(c), i) for c, i, _ in facts_at(ex, pb)][:8])
+        pa = deps(ex, fl.term_arg(pb, 0))
+        ctx.check(pa == {("param", 1)}, rid, "pid-uid-of-argument:%s" % sym, "the process is extracted from the same siginfo", pt["sp"], sorted(map(str, pa)))
+    # readers nowhere else: every function calling a reader directly is part of Origin::extract's normal form, and so is every caller of such a helper
+    inl = set(inline.all_inlined(ex)) | {ex0.id}
     readers = [i for i in F.inst if i.kind == "foreign" and i.symbol in ("sighook_signal_pid", "sighook_signal_uid")]
     for r in readers:
-        callers = {F.inst[c].defp for (c, k, bb) in F.callers().get(r.id, [])}
-        ctx.check(callers <= {"signal_hook::low_level::siginfo::Process::extract"}, rid, "reader-callers:%s" % r.symbol, "%s is called only by Process::extract" % r.symbol, None, sorted(callers))
-    pe_callers = {F.inst[c].defp for i in F.inst if i.defp == "signal_hook::low_level::siginfo::Process::extract" for (c, k, bb) in F.callers().get(i.id, [])}
-    ctx.check(pe_callers <= {"signal_hook::low_level::siginfo::Origin::extract"}, rid, "process-extract-callers", "Process::extract is called only from the guarded site", None, sorted(pe_callers))
+        direct = {c for (c, k, bb) in F.callers().get(r.id, [])}
+        outside = sorted(F.inst[c].name for c in direct if c not in inl)
+        ctx.check(not outside, rid, "reader-callers:%s" % r.symbol, "%s is called only on the guarded path of Origin::extract" % r.symbol, None, outside)
+        for c in direct:
+            if c == ex0.id:
+                continue
+            up = sorted(F.inst[x].name for (x, k, bb) in F.callers().get(c, []) if x not in inl)
+            ctx.check(not up, rid, "reader-helper-callers:%s" % keyname(F.inst[c].name).split("::")[-1], "the helper reading si_pid/si_uid is called only from the guarded site", None, up)
     # Origin.signal = si_signo of the argument; None assigned on the has_process==false branch
-    aggs = [(bb, si, s) for bb, bl in enumerate(ex.blocks) for si, s in enumerate(bl["s"]) if s["k"] == "assign" and s["r"]["k"] == "aggregate" and s["r"].get("def", "").endswith("siginfo::Origin")]
-    if len(aggs) != 1:
+    aggs = [(bb, si, s) for bb, bl in enumerate(ex.blocks) for si, s in enumerate(bl["s"]) if s["k"] == "assign" and s["r"]["k"] == "aggregate" and s["r"].get("def", "").endswith("siginfo::Origin")
+            and not bl.get("dead")]
+    if not aggs:
         raise AnchorLost("Origin aggregate")
-    bb, si, s = aggs[0]
-    fields = s["r"]["fields"]
-    sg = [deep_strip(e) for e in fl.operand(s["r"]["ops"][fields.index("signal")], (bb, si))]
-    ctx.check(all(e[0] == "field" and e[2] == "si_signo" and deep_strip(e[1]) in (("param", 1), ("deref", ("param", 1))) for e in sg), rid, "signal-is-si_signo",
-              "Origin.signal is si_signo of the argument", s["sp"], [show(e) for e in sg])
-    pr = [deep_strip(e) for e in fl.operand(s["r"]["ops"][fields.index("process")], (bb, si))]
-    some_from_extract = all((e[0] == "agg" and e[1][2] == "None") or mentions(e, lambda x: x[0] == "call" and x[1] == pb) for e in pr) and \
-        any(e[0] == "agg" and e[1][2] == "None" for e in pr)
-    ctx.check(some_from_extract, rid, "process-none-or-extracted", "Origin.process is None or the guarded extraction (never stale memory)", s["sp"], [show(e) for e in pr])
+    rdb = {pb for pb, _ in rd_calls}
+    for bb, si, s in aggs:
+        fields = s["r"]["fields"]
+        sg = [deep_strip(e) for e in fl.operand(s["r"]["ops"][fields.index("signal")], (bb, si))]
+        ctx.check(bool(sg) and all(e[0] == "field" and e[2] == "si_signo" and deep_strip(e[1]) in (("param", 1), ("deref", ("param", 1))) for e in sg), rid, "signal-is-si_signo",
+                  "Origin.signal is si_signo of the argument", s["sp"], [show(e) for e in sg])
+        from ..flow import infeasible
+        pr = [deep_strip(e) for e in fl.operand(s["r"]["ops"][fields.index("process")], (bb, si))]
+        pr = [e for e in pr if not infeasible(e)]
+
+        def none_or_read(e):
+            if (e[0] == "agg" and e[1][0] == "adt" and e[1][2] == "None") or (e[0] == "const" and e[4] == "None"):
+                return True
+            d = deps(ex, [e])
+            return bool({x[1] for x in d if x[0] == "call"} & rdb)
+        ctx.check(bool(pr) and all(none_or_read(e) for e in pr), rid, "process-none-or-extracted", "Origin.process is None or the guarded extraction (never stale memory)", s["sp"], [show(e) for e in pr])
+        # ... and it is None only when the kernel supplies no process: every `None` that can reach the field is assigned on the
+        # has_process() == false branch (a None on the true branch drops a pid/uid the kernel did supply)
+        bad_none = []
+
+        def none_sites(local, at, depth=0):
+            for site in fl.reaching(local, at):
+                if site[0] == "entry" or depth > 6:
+                    continue
+                sb, sidx = site
+                bl_ = ex.blocks[sb]
+                if sidx >= len(bl_["s"]):
+                    continue
+                st = bl_["s"][sidx]
+                if st["k"] != "assign" or st["l"]["p"]:
+                    continue
+                r_ = st["r"]
+                is_none = (r_["k"] == "aggregate" and r_.get("variant") == "None") or \
+                          (r_["k"] == "use" and r_["o"]["k"] == "const" and r_["o"]["c"].get("variant") == "None")
+                if is_none:
+                    on_false = any(ce[0] == "call" and ce[1] == hb and truth(inf) is False for (ce, inf, _b) in facts_at(ex, sb))
+                    if not on_false:
+                        bad_none.append(st["sp"])
+                elif r_["k"] == "use" and r_["o"]["k"] in ("copy", "move") and not r_["o"]["p"]["p"]:
+                    none_sites(r_["o"]["p"]["l"], (sb, sidx), depth + 1)
+        op = s["r"]["ops"][fields.index("process")]
+        if op["k"] in ("copy", "move") and not op["p"]["p"]:
+            none_sites(op["p"]["l"], (bb, si))
+        ctx.check(not bad_none, rid, "process-none-only-without-process", "Origin.process is None only on the branch where has_process() is false", s["sp"],
+                  {"none_assigned_although_has_process": sorted(set(bad_none))})
     # extern agreement
     for sym, ret_rust, ret_c in (("sighook_signal_cause", ICAUSE, "uint8_t"), ("sighook_signal_pid", "i32", "pid_t"), ("sighook_signal_uid", "u32", "uid_t")):
         d = c_decl(F, "FunctionDecl", sym)
